@@ -218,6 +218,31 @@ def gen(names64=(), lens=(), caps=(64, 72, 96, 128, 200), extra=None):
     return g
 
 
+def h_callback_buffer(I, job):
+    """CallbackBuffer under every sequence of add / possibly_flush / flush / read: every object leaves exactly once, in order, through the callback, read() or what remains"""
+    nops = job['ops']; init = job['initial']; mx = job['max']; wc = job['callback']
+    om = I.new_obj(nops, 'ops', 'heap'); ops = []
+    for k in range(nops):
+        o = I.named('op%d' % k, 8); I.assume(z3.ULE(I.term(o, 8), 3)); o = I.concretize(o, 'op'); I.store(om + k, i8, o); ops.append(o)
+    log = I.new_obj(8 * 64, 'log', 'heap')
+    n = I.concretize(I.call('@verif_callback_buffer', [om, nops, init, mx, wc, log, 64]), 'n')
+    words = [I.concretize(I.load(log + 8 * k, i64), 'w') for k in range(min(n, 64))]
+    # reference: NODE bytes per node; possibly_flush hands over iff a callback is set and more than `max` bytes are committed; flush iff callback and non-empty
+    NODE = 48; pending = []; want = []; nid = 0
+    for o in ops:
+        if o == 0: nid += 1; pending.append(nid)
+        elif o == 1:
+            if wc and len(pending) * NODE > mx: want.append((1, pending)); pending = []
+        elif o == 2:
+            if wc and pending: want.append((1, pending)); pending = []
+        else: want.append((2, pending)); pending = []
+    want.append((3, pending))
+    flat = []
+    for tag, ids in want: flat += [tag, len(ids)] + ids
+    if words != flat: raise Finding('callback-buffer', 'hand-overs %s differ from the reference %s (tag 1 callback / 2 read / 3 left, count, ids) for operations %s' % (words, flat, ops))
+    I.reach('end')
+
+
 def harnesses(tier):
     global CAPMAX
     q = tier == 'quick'
@@ -244,4 +269,7 @@ def harnesses(tier):
     hs.append(Harness('copy_swap_move', 'builders', h_copy, jobs=[dict(mode=m, op=o) for m in modes for o in range(9)],
                       desc='add_buffer, push_back, add_item, swap, move construction/assignment, clear + add_buffer between two buffers; also from a source that holds a built but uncommitted object (only committed contents are copied or visited; a later rollback of the source changes nothing in the copy)', bounds='capacity 64..200/512, user 0..10',
                       testgen=gen(['id0', 'id1', 'id2'], [('ulen', 10)]), sanitize=True))
+    hs.append(Harness('callback_buffer', 'builders', h_callback_buffer, jobs=[dict(ops=k, initial=i, max=m, callback=c) for k in ((4, 5) if q else (4, 5, 6)) for (i, m, c) in ((64, 50, 1), (256, 100, 1), (64, 50, 0))], sanitize=True,
+                      desc='CallbackBuffer under every sequence of add-a-node-and-commit / possibly_flush() / flush() / read(): every node is handed over exactly once and in order -- through the callback (flush() when something is committed; possibly_flush() only above the size limit), through read(), or it is still in the buffer at the end; no empty buffer goes to the callback; without a callback nothing is flushed; the buffer grows past its initial size without losing nodes',
+                      bounds='<= %d operations over 4 kinds; initial sizes 64 / 256 bytes, limits 50 / 100 bytes (48-byte nodes)' % (5 if q else 6)))
     return hs
